@@ -70,6 +70,29 @@ claim(
     "SQL predicate truth tables + finite-domain interpretation + path enumeration (order, same-region, no-await-between)",
 )
 
+claim(
+    "C01",
+    "Clause level: necessary mechanisms of incremental = fresh. Every selector on a change-reaction path (file content, environment "
+    "variables, glob match sets, completion) must include detached nodes; the skip is reached only past both digest comparisons; a rerun "
+    "starts from the declared state (compiled effects of reset_for_rerun, in a transaction before the command); a lost product "
+    "invalidates its creator chain; the propagation chain is intact and each handler reacts per state (finite-domain tables over "
+    "FileState/StepState); full recycle compares all four declaration lists; startup scans precede the builder. Equality of outputs and "
+    "graphs for all histories is not decided.",
+    STATIC_TB,
+    "selector analysis (detached-inclusive) + path enumeration (guarded-by, must-precede, same-region) + call-graph reachability + finite-domain handler tables",
+)
+
+claim(
+    "C13",
+    "Clause level, strong: def-use of every ingredient into the digest (including FileHash's equality-relevant fields and both executor "
+    "call sites), sorted iteration of every hashing loop, and a decision procedure for unique decodability of the word grammar "
+    "(position automaton over typed words) that produces the ambiguous reading when it fails; stat shortcut compares the full stat "
+    "signature; None/unknown pairing. This is an injectivity argument over all ingredient pairs up to SHA-256, which sampled examples "
+    "cannot give. Known finding F1 (keyword '__env_overrides__' among str words) is listed.",
+    STATIC_TB + " Assumes SHA-256 collision resistance, NUL-free variable words (as the property states) and fixed-width digest/int words.",
+    "def-use analysis + regular-grammar ambiguity check (product of the Glushkov automaton with itself)",
+)
+
 _PENDING = "rules designed in DESIGN.md section 4 but not implemented yet in this session; no claim is made until the check exists"
-for _pid in ["C01", "C02", "C04", "C05", "C08", "C11", "C12", "C13", "C14", "C15", "C16", "C17", "C19", "C20"]:
+for _pid in ["C02", "C04", "C05", "C08", "C11", "C12", "C14", "C15", "C16", "C17", "C19", "C20"]:
     NOT_APPLICABLE[_pid] = _PENDING
